@@ -36,12 +36,14 @@ import io
 import signal
 import struct
 from dataclasses import dataclass
+from enum import Enum
 from typing import Any, Protocol
 
 import pyarrow as pa
 from pyarrow import ipc
 
 from vgi_rpc.rpc import AnnotatedBatch, CallContext, OutputCollector, RpcServer, Stream, StreamState
+from vgi_rpc.utils import ArrowSerializableDataclass
 
 META = {
     "id": "C05",
@@ -95,9 +97,24 @@ class C05State(StreamState):
         out.finish()
 
 
+@dataclass(frozen=True)
+class C05Point(ArrowSerializableDataclass):
+    x: int
+    y: str
+
+
+class C05Color(Enum):
+    RED = "red"
+    BLUE = "blue"
+
+
 class C05Proto(Protocol):
     def f(self, a: int) -> int: ...
     def g(self, a: int) -> Stream[C05State]: ...
+    def h(self, p: C05Point) -> int: ...
+    def ho(self, p: C05Point | None) -> int: ...
+    def hl(self, ps: list[C05Point]) -> int: ...
+    def k(self, c: C05Color) -> int: ...
 
 
 class C05ProtoV(Protocol):
@@ -105,6 +122,10 @@ class C05ProtoV(Protocol):
 
     def f(self, a: int) -> int: ...
     def g(self, a: int) -> Stream[C05State]: ...
+    def h(self, p: C05Point) -> int: ...
+    def ho(self, p: C05Point | None) -> int: ...
+    def hl(self, ps: list[C05Point]) -> int: ...
+    def k(self, c: C05Color) -> int: ...
 
 
 class C05Impl:
@@ -113,6 +134,18 @@ class C05Impl:
 
     def g(self, a: int) -> Stream[C05State]:
         return Stream(output_schema=pa.schema([]), state=C05State())
+
+    def h(self, p: C05Point) -> int:
+        return p.x
+
+    def ho(self, p: C05Point | None) -> int:
+        return 0 if p is None else p.x
+
+    def hl(self, ps: list[C05Point]) -> int:
+        return len(ps)
+
+    def k(self, c: C05Color) -> int:
+        return 1
 
 
 PROBE_A = 41
@@ -176,6 +209,7 @@ def run(ctx: Any) -> None:  # noqa: C901, PLR0912, PLR0915 - one long driver, ke
     from vgi_rpc.utils import ValidatedReader
 
     real = _real_classes()
+    validation_order = _validation_order(ctx.repo)
 
     def code_of_exc(e: BaseException | type | None) -> int:
         """0 = none; else 1 + index of the nearest model class in the MRO."""
@@ -407,9 +441,13 @@ def run(ctx: Any) -> None:  # noqa: C901, PLR0912, PLR0915 - one long driver, ke
                 from vgi_rpc.rpc._common import _current_request_param_schema
 
                 _current_request_param_schema.set(final.schema)  # what _read_request leaves behind for the check
-                _deserialize_params(kwargs, info.param_types, srv._ipc_validation)
-                _validate_call_signature(info.name, kwargs, info.param_types, info.param_defaults, info.params_schema)
-                _validate_params(info.name, kwargs, info.param_types)
+                steps = {
+                    "_deserialize_params": lambda: _deserialize_params(kwargs, info.param_types, srv._ipc_validation),
+                    "_validate_call_signature": lambda: _validate_call_signature(info.name, kwargs, info.param_types, info.param_defaults, info.params_schema),
+                    "_validate_params": lambda: _validate_params(info.name, kwargs, info.param_types),
+                }
+                for step in validation_order:
+                    steps[step]()
 
             d["val"] = try_code(validate)[0]
         return d
@@ -582,6 +620,71 @@ def run(ctx: Any) -> None:  # noqa: C901, PLR0912, PLR0915 - one long driver, ke
                     add(f"metadata {key.decode()}={vname} on a {shape}, direct serve_one", data_m, loop=False, family="metadata")
                     add(f"metadata {key.decode()}={vname} on a {shape}, versioned server after seg", data_m, srv="versioned", primed=("seg",), family="metadata")
 
+    # (a'') parameters whose conversion runs on caller bytes: the nested IPC stream of a dataclass parameter (plain,
+    # optional, list element) and an enum member name
+    pt = C05Point(x=5, y="q")
+    good_cell = pt.serialize_to_bytes()
+    inner_rdr = ipc.open_stream(good_cell)
+    inner_schema = inner_rdr.schema
+    inner_batch, inner_md = inner_rdr.read_next_batch_with_custom_metadata()
+
+    def inner(batches: list[pa.RecordBatch], schema: pa.Schema | None = None, eos: bool = True) -> bytes:
+        sch = schema or inner_schema
+        sink = io.BytesIO()
+        w = ipc.new_stream(sink, sch)
+        for b in batches:
+            w.write_batch(b, custom_metadata=inner_md)
+        if eos:
+            w.close()
+            return sink.getvalue()
+        out = sink.getvalue()
+        w.close()
+        return out
+
+    other_schema = pa.schema([("z", pa.float64())])
+    other_batch = pa.RecordBatch.from_arrays([pa.array([1.5])], schema=other_schema)
+    b_schema, b_batch, b_full = len(inner([], eos=False)), len(inner([inner_batch], eos=False)), len(good_cell)
+    CELLS: list[tuple[str, bytes]] = [
+        ("valid", good_cell),
+        ("zero-batch stream (schema + EOS)", inner([])),
+        ("two-batch stream", inner([inner_batch, inner_batch])),
+        ("schema only, no EOS", inner([], eos=False)),
+        ("schema + batch, no EOS", inner([inner_batch], eos=False)),
+        ("empty bytes", b""),
+        ("stream of a different schema", inner([other_batch], schema=other_schema)),
+        ("zero-batch stream of a different schema", inner([], schema=other_schema)),
+        ("zero-row batch", inner([inner_batch.slice(0, 0)])),
+        ("two-row batch", inner([pa.concat_batches([inner_batch, inner_batch])]) if hasattr(pa, "concat_batches") else inner([inner_batch])),
+        ("trailing garbage", good_cell + b"garbage!"),
+        ("garbage", b"garbagegarbagegarbage"),
+        ("EOS marker only", b"\xff\xff\xff\xff\x00\x00\x00\x00"),
+    ] + [(f"truncated at {k}", good_cell[:k]) for k in sorted({4, 8, b_schema - 8, b_schema, b_schema + 8, b_batch - 8, b_batch, b_full - 4}) if 0 < k < b_full]
+    for cname, cell in CELLS:
+        for meth, col, arr in [("h", "p", pa.array([cell], pa.binary())), ("ho", "p", pa.array([cell], pa.binary())), ("hl", "ps", pa.array([[good_cell, cell]], pa.list_(pa.binary())))]:
+            if meth != "h" and ctx.tier == "quick" and cname not in ("valid", "zero-batch stream (schema + EOS)", "empty bytes", "garbage"):
+                continue
+            psch = servers["plain"]._methods[meth].params_schema
+            try:
+                data_c = build([arr.cast(psch.field(0).type)], [col], {**MDV, **PV0, b"vgi_rpc.method": meth.encode()}, nullable=psch.field(0).nullable)
+            except Exception:  # noqa: BLE001
+                continue
+            add(f"{meth}: nested cell = {cname}", data_c, family="nested")
+            if meth == "h":
+                add(f"{meth}: nested cell = {cname}, after seg+fail", data_c, family="nested", primed=("seg", "fail"))
+                if cname.startswith("zero-batch") or ctx.tier != "quick":
+                    add(f"{meth}: nested cell = {cname}, direct serve_one", data_c, family="nested", loop=False)
+                    add(f"{meth}: nested cell = {cname}, versioned server", data_c, family="nested", srv="versioned")
+    add("ho: null cell", build([pa.array([None], pa.binary())], ["p"], {**MDV, **PV0, b"vgi_rpc.method": b"ho"}, nullable=True), family="nested")
+    add("h: null cell", build([pa.array([None], pa.binary())], ["p"], {**MDV, **PV0, b"vgi_rpc.method": b"h"}, nullable=True), family="nested")
+    add("h: string instead of bytes", build([pa.array(["x"])], ["p"], {**MDV, **PV0, b"vgi_rpc.method": b"h"}), family="nested")
+    ksch = servers["plain"]._methods["k"].params_schema
+    for ename, val in [("known member", "RED"), ("unknown member", "PURPLE"), ("empty", ""), ("value not name", "red"), ("null", None)]:
+        try:
+            arr_k = pa.array([val], pa.string()).cast(ksch.field(0).type) if not pa.types.is_dictionary(ksch.field(0).type) else pa.array([val], pa.string()).dictionary_encode().cast(ksch.field(0).type)
+            add(f"k: enum {ename}", build([arr_k], ["c"], {**MDV, **PV0, b"vgi_rpc.method": b"k"}, nullable=True), family="nested")
+        except Exception:  # noqa: BLE001
+            pass
+
     # (b) random descriptors: metadata keys x values, 0..4 columns, rows 0..3, server and mode
     n_random = 140 if ctx.tier == "quick" else 1500
     for i in range(n_random):
@@ -708,6 +811,20 @@ def run(ctx: Any) -> None:  # noqa: C901, PLR0912, PLR0915 - one long driver, ke
     ]
 
 
+def _validation_order(repo: Any) -> list[str]:
+    """The order in which serve_one runs its three request-validation steps (read from the tree under test)."""
+    import ast
+
+    names = ("_deserialize_params", "_validate_call_signature", "_validate_params")
+    tree = ast.parse((repo / "vgi_rpc" / "rpc" / "_server.py").read_text())
+    for node in ast.walk(tree):
+        if isinstance(node, ast.Try):
+            got = [b.value.func.id for b in node.body if isinstance(b, ast.Expr) and isinstance(b.value, ast.Call) and isinstance(b.value.func, ast.Name) and b.value.func.id in names]
+            if sorted(got) == sorted(names):
+                return got
+    return list(names)
+
+
 def _schema_only(schema: pa.Schema) -> bytes:
     sink = io.BytesIO()
     with ipc.new_stream(sink, schema):
@@ -738,4 +855,6 @@ def _site_guess(d: dict[str, Any], cs: dict[str, Any]) -> str:
         return "shm-segment-cannot-be-attached"
     if not d["shm_meta_ok"]:
         return "shm-segment-metadata-malformed"
+    if d["val"]:
+        return "parameter-value-conversion-raises-" + ALL_EXC[d["val"] - 1]
     return "other"
